@@ -398,7 +398,7 @@ def run(ctx):
     items = []
     for i, h in enumerate(hs):
         items.append((i, "native", h))
-        if i % 2 == 0:
+        if i % 2 == 1:                                         # (odd: so that the one-character-name variant occurs too)
             items.append((i, "git", h))
     core.fork_map(ctx, replay, items)
     rows = ctx.collected
